@@ -659,3 +659,38 @@ def substituted_line_trimmed(run, R="ASM"):
     ok = bool(sites) and all(trimmed(t) for bi, t in sites)
     run.check(ok, R, R + "|subst|line-trimmed", f.loc(), "the substituted line is handed to the matcher without trailing blanks",
               "eval_asm::resolve_once hands the substituted line to the matcher as it is: with an empty argument at its end (`wrap a` for `wrap {reg} {p} => asm { abs {reg} {p} }`) the line ends in a blank and finds no match, although `abs a` written in place assembles")
+
+
+def fn_params_rule(run, R="FN"):
+    """the parameters of a `#fn` are distinct names separated by commas: in directive_fn::parse the push of a parameter is behind a
+    test that compares the new name with the names already collected (a repeat is reported and fails - the same message the
+    rule-parameter parser gives), and the answer of `maybe_expect(Comma)` decides whether another parameter may follow"""
+    from mir import closure_of_origin
+    f = run.anchor(R, "asm::parser::directive_fn::parse")
+    if f is None:
+        return
+    pushes = [(bi, t) for bi, t in f.calls() if re.search(r"Vec::<.*AstFnParameter.*>::push$|Vec::<T.*>::push$", t.get("callee") or "") and "AstFnParameter" in " ".join(t.get("arg_tys") or [])]
+    dup_ok = False
+    for bi, t in f.calls():
+        c = t.get("callee") or ""
+        if not re.search(r"Iterator>?::any(::<.*)?$|::contains(::<.*)?$|Iterator>?::find(::<.*)?$|Iterator>?::position(::<.*)?$", c):
+            continue
+        bt = T.bool_test(f, t)
+        if bt is None:
+            continue
+        reg = T.reach_following_consts(f, bt[0])
+        if report_error_in_region(f, reg) and err_return_in_region(f, reg) and pushes and all(f.edge_dominates(bt[2], bt[1], pb) for pb, _ in pushes):
+            dup_ok = True
+    run.check(bool(pushes) and dup_ok, R, R + "|params|distinct", f.loc(), "a parameter name that was already collected is reported and rejected before it is pushed",
+              "directive_fn::parse collects a parameter without comparing its name with the ones it already has: `#fn f(x, x) => x` is accepted and the later argument silently wins")
+    commas = [(bi, t) for bi, t in f.calls() if (t.get("resolved") or t.get("callee") or "").endswith("::maybe_expect") and any("Comma" in deep(f, a, 3) or "Comma" in str(a.get("const", "")) for a in t["args"])]
+    tested = False
+    from rules_sym import option_tests
+    for bi, t in commas:
+        sw = _switch_on_call_result(f, bi, t)
+        if sw:
+            tested = True
+    if not tested and commas:
+        tested = bool(option_tests(f, lambda d: "maybe_expect(" in d and "Comma" in d))
+    run.check(bool(commas) and tested, R, R + "|params|comma-separated", f.loc(), "whether another parameter may follow is decided by the comma that was (not) consumed",
+              "directive_fn::parse throws away the answer of `maybe_expect(Comma)`: `#fn g(a b) => a - b` is read as two parameters")
